@@ -860,6 +860,7 @@ Section Sound.
       eapply strip_conf; eauto. cbn. rewrite Hfv, Hev, Elen'. exact Hfn.
     - (* len *)
       destruct (infer_args G K args) as [ts|] eqn:Hargs; [|discriminate].
+      destruct (Nat.eqb (length ts) 1); [|discriminate]. cbn in Hi.
       destruct (existsb is_opt ts) eqn:Hex; [discriminate|]. cbn in Hi.
       inversion Hi; subst; clear Hi. inversion Hcf'; subst.
       pose proof (args_sound args HP G K r ts Hincl' Hargs He Hf Hm HK) as Ha.
